@@ -15,6 +15,7 @@ var models map[string]modelFn
 
 // modelEffects: heap components a model may write (for the static write-set analysis).
 var modelEffects = map[string][]string{
+	"github.com/google/gopacket.SerializeLayers": {"E:uint8", "ghostarr.serlen"},
 	"time.Now":   {"ghostbv.clock"},
 	"time.Since": {"ghostbv.clock"},
 	"encoding/json.Unmarshal": {"*"},
@@ -61,6 +62,12 @@ func init() {
 		"(*sync.Map).Load":                         mSyncMapLoad,
 		"(*sync.Map).Store":                        mSyncMapStore,
 		"(*sync.Map).Delete":                       mSyncMapDelete,
+		"github.com/google/gopacket.NewSerializeBuffer":                                      mNewSerializeBuffer,
+		"github.com/google/gopacket.SerializeLayers":                                         mSerializeLayers,
+		"(github.com/google/gopacket.SerializeBuffer).Bytes":                                 mSerializeBytes,
+		"(*github.com/google/gopacket/layers.tcpipchecksum).SetNetworkLayerForChecksum":      mFreshPure,
+		"(*sync.Pool).Get":                         mFreshPure, // some object that already exists (or a new one): arbitrary interface value
+		"(*sync.Pool).Put":                         func(x *Exec, st *State, a []*Val, s *types.Signature, p token.Pos) *Val { return nil },
 		"time.Now":                                 mTimeNow,
 		"time.Since":                               mTimeSince,
 		"(time.Time).IsZero":                       func(x *Exec, st *State, a []*Val, s *types.Signature, p token.Pos) *Val { return scalar(types.Typ[types.Bool], eq(a[0].S, "(_ bv0 64)"), "Bool") },
@@ -410,4 +417,93 @@ func mTimeNow(x *Exec, st *State, a []*Val, s *types.Signature, p token.Pos) *Va
 func mTimeSince(x *Exec, st *State, a []*Val, s *types.Signature, p token.Pos) *Val {
 	now := x.clockNow(st)
 	return scalar(s.Results().At(0).Type(), "(bvsub "+now+" "+a[0].S+")", bvSort(64))
+}
+
+// ---- gopacket serialization ----
+//
+// A SerializeBuffer is an object B that owns one byte array (identified by B as well). SerializeLayers
+// replaces the array's contents; the new contents are abstract, but the ghost function
+// specPktSer(bytes) names the serialization (snapshot identity s), and the ghost fields
+// ser.layer<k>(s), ser.tag<k>(s), ser.n(s) give the layer objects that were serialized, in order.
+// Bytes() returns the buffer's own array (no copy): serializing into the same buffer again changes
+// the bytes of a slice obtained earlier - exactly like the real library.
+
+func mNewSerializeBuffer(x *Exec, st *State, a []*Val, s *types.Signature, p token.Pos) *Val {
+	ref := x.alloc(st)
+	return &Val{K: KIface, T: s.Results().At(0).Type(), E: []*Val{scalar(nil, x.tagOf(types.Typ[types.UnsafePointer]), "Int"), scalar(nil, ref, "Int")}}
+}
+
+func (x *Exec) serLen(st *State) (*HeapSym, string, compInfo) {
+	key := "G|serlen"
+	ci := compInfo{sort: "(Array Int " + x.sc.intSort() + ")"}
+	x.keyInfo[key] = ci
+	return x.heapSym(st, key, ci), key, ci
+}
+
+func mSerializeLayers(x *Exec, st *State, a []*Val, s *types.Signature, p token.Pos) *Val {
+	w, layers := a[0], a[2]
+	x.materialize(st, w)
+	B := w.E[1].S
+	I := x.sc.intSort()
+	errV := x.freshVal(s.Results().At(0).Type(), "sererr")
+	ok := eq(errV.E[0].S, "0")
+	snap := x.alloc(st)
+	// layers
+	et := x.sliceElem(layers.T)
+	ls := x.leaves(et)
+	decl := func(n, srt string) {
+		if !x.sc.decl[n] {
+			x.sc.decl[n] = true
+			x.sc.ufDecls = append(x.sc.ufDecls, fmt.Sprintf("(declare-fun %s (Int) %s)", n, srt))
+		}
+	}
+	x.sc.bridge[64] = true
+	for k := 0; k < 6; k++ {
+		idx := x.sc.iAdd(layers.E[1].S, x.sc.iConst(int64(k)))
+		var tag, ref string
+		for _, l := range ls {
+			key := "E|" + typeKey(et) + "|" + l.Path
+			h := x.heapSym(st, key, x.eInfo(l))
+			v := sel(sel(x.use(h), layers.E[0].S), idx)
+			if l.Path == ".tag" {
+				tag = v
+			} else {
+				ref = v
+			}
+		}
+		inLen := x.sc.iLt(x.sc.iConst(int64(k)), layers.E[2].S)
+		decl(fmt.Sprintf("gf_ser_layer%d", k), bvSort(64))
+		decl(fmt.Sprintf("gf_ser_tag%d", k), bvSort(64))
+		rb := "(bvof64 " + ref + ")"
+		x.sc.assume(implies(inLen, and(eq(fmt.Sprintf("(gf_ser_layer%d %s)", k, snap), rb), eq(fmt.Sprintf("(gf_ser_tag%d %s)", k, snap), "(bvof64 "+tag+")"))))
+		x.sc.assume(implies(and("(<= 0 "+ref+")", "(< "+ref+" 4611686018427387904)"), eq("(nat64 "+rb+")", ref)))
+	}
+	decl("gf_ser_n", bvSort(64))
+	x.sc.assume(eq("(gf_ser_n "+snap+")", x.convNum(layers.E[2].S, I, bvSort(64), true, false)))
+	// bytes
+	E, _, key, ci := x.byteArr(st)
+	arr := x.sc.declare("pktbytes", "(Array "+I+" "+bvSort(8)+")")
+	n := x.sc.declare("pktlen", I)
+	x.sc.assume(and(x.sc.iLe(x.sc.iConst(0), n), x.sc.iLe(n, x.sc.iConst(1<<20))))
+	x.freshCheck(st, key, B, p)
+	x.setHeap(st, key, ci, sto(E, B, arr))
+	lh, lk, lci := x.serLen(st)
+	x.setHeap(st, lk, lci, sto(x.use(lh), B, n))
+	if !x.sc.decl["uf_specPktSer"] {
+		x.sc.decl["uf_specPktSer"] = true
+		x.sc.ufDecls = append(x.sc.ufDecls, fmt.Sprintf("(declare-fun uf_specPktSer ((Array %s %s) %s %s) %s)", I, bvSort(8), I, I, I))
+	}
+	x.sc.assume(implies(ok, eq("(uf_specPktSer "+arr+" "+x.sc.iConst(0)+" "+n+")", x.intAsGo(snap))))
+	return errV
+}
+
+func mSerializeBytes(x *Exec, st *State, a []*Val, s *types.Signature, p token.Pos) *Val {
+	w := a[0]
+	x.materialize(st, w)
+	B := w.E[1].S
+	I := x.sc.intSort()
+	lh, _, _ := x.serLen(st)
+	n := sel(x.use(lh), B)
+	x.sc.assume(implies(x.guard(st), and(x.sc.iLe(x.sc.iConst(0), n), x.sc.iLe(n, x.sc.iConst(1<<20)))))
+	return &Val{K: KSlice, T: s.Results().At(0).Type(), E: []*Val{scalar(nil, B, "Int"), scalar(nil, x.sc.iConst(0), I), scalar(nil, n, I), scalar(nil, n, I)}}
 }
